@@ -6930,6 +6930,18 @@ static bool isContainerYieldPointer(Library::Container::Yield yield)
     return yield == Library::Container::Yield::BUFFER || yield == Library::Container::Yield::BUFFER_NT;
 }
 
+// size of int, long and long long on the given platform (0 for other types)
+static std::size_t getIntegerTypeSize(ValueType::Type type, const Platform &platform)
+{
+    if (type == ValueType::Type::INT)
+        return platform.sizeof_int;
+    if (type == ValueType::Type::LONG)
+        return platform.sizeof_long;
+    if (type == ValueType::Type::LONGLONG)
+        return platform.sizeof_long_long;
+    return 0;
+}
+
 void SymbolDatabase::setValueType(Token* tok, const ValueType& valuetype, const SourceLocation &loc)
 {
     auto* valuetypePtr = new ValueType(valuetype);
@@ -7416,6 +7428,14 @@ void SymbolDatabase::setValueType(Token* tok, const ValueType& valuetype, const 
             vt.type = vt2->type;
             vt.sign = vt2->sign;
             vt.originalTypeName = vt2->originalTypeName;
+        }
+        // usual arithmetic conversions: if the signed operand of higher rank cannot represent all values of
+        // the unsigned operand of lower rank, both are converted to the unsigned type of the higher rank
+        if (vt2 && vt1->type != vt2->type && vt.sign == ValueType::Sign::SIGNED) {
+            const ValueType * const lower = (vt1->type < vt2->type) ? vt1 : vt2;
+            const std::size_t lowerSize = getIntegerTypeSize(lower->type, mSettings.platform);
+            if (lower->sign == ValueType::Sign::UNSIGNED && lowerSize != 0 && lowerSize >= getIntegerTypeSize(vt.type, mSettings.platform))
+                vt.sign = ValueType::Sign::UNSIGNED;
         }
         if (vt.type < ValueType::Type::INT && !(ternary && vt.type==ValueType::Type::BOOL)) {
             vt.type = ValueType::Type::INT;
